@@ -1,5 +1,5 @@
 """Per-property policy: which rules decide which clause, floors, scope, wording for the evidence."""
-from . import rules_conv, rules_table, rules_codec, rules_layout, rules_effect
+from . import rules_conv, rules_table, rules_codec, rules_layout, rules_effect, rules_path
 
 import json, os
 
@@ -89,6 +89,24 @@ PROPS = {
             {"run": rules_effect.run_layout, "floor": 5},
             {"run": rules_layout.run_deepcopy, "floor": 5},
             {"run": rules_layout.run_errprop, "floor": 100, "scope": "anchors"},
+        ],
+    },
+    "C13": {
+        "explanation": "ERRFX on every queue primitive (functions in the anchor files taking a non-const queue): trace-partitioned interval analysis shows no path that "
+                       "stores into the queue (fields or storage via memcpy/memmove/memset) and then returns an error. DIVZERO: every divisor in the queue files excludes 0 "
+                       "on all paths. OUTPARAM: callee summaries (which return classes leave *out unwritten) against callers that discard the result and read the local. "
+                       "STATUSPOLARITY: callees returning negative errors and positive successes are not tested by truthiness. DECWRAP on loop counters.",
+        "not_decided": "deque equivalence and storage bounds of the (len,max,off) segment arithmetic (relational), e.g. the wrapped copy lengths in mpt_qpop",
+        "assumptions": [],
+        "technique": "interval analysis with trace partitioning (effect-before-refusal), divisor intervals, interprocedural out-parameter and return-value summaries",
+        "level_text": "Decides the refusal clause ('refused without changing the content') and the fault clause (no division by zero, no read of an unwritten out value) "
+                      "for all paths of the 18 queue files; not the byte-sequence equivalence.",
+        "level_note": "effects = direct stores through the queue pointer and mem* writes into it; callee effects are attributed to the callee",
+        "rules": [
+            {"run": rules_effect.run_objects, "floor": 10, "ctx": {"records": ["mpt_queue", "queue"], "min_functions": 10}, "use_anchor_files": True},
+            {"run": rules_path.run_divzero, "floor": 4, "use_anchor_files": True},
+            {"run": rules_path.run_outparam_ignored, "floor": 4, "use_anchor_files": True},
+            {"run": rules_path.run_statuspolarity, "floor": 1, "use_anchor_files": True},
         ],
     },
 }
